@@ -103,6 +103,8 @@ pub fn profile(prop: &str) -> Option<Profile> {
         "C02" => p("C02", &[PushBack, PushFront, TryPushBack, TryPushFront], Family::None, 50, 10),
         "C03" => p("C03", OWNERSHIP, Family::None, 70, 15),
         "C04" => p("C04", &all_deque_ops(), Family::None, 50, 20),
+        // C04 under faults: stale copies touched while unwinding (second destructor runs, ...)
+        "C04f" => p("C04f", &all_deque_ops(), Family::Any, 50, 15),
         "C05" => p("C05", DESTROYERS, Family::Drop, 60, 10),
         "C06" => p("C06", USERCODE, Family::User, 60, 10),
         "C07" => p("C07", VIEWS, Family::None, 60, 30),
